@@ -12,7 +12,10 @@ Tie C.  Families (each case carries everything needed to rebuild it; `replay` re
   sgpr      : Nystrom matrix, textbook SGPR predictive equations, Titsias bound vs run_sgpr
   rff       : RFFKernel dense output on every branch (x1 is x2 with 2D < n / 2D >= n, x1 != x2, diag) vs the documented
               (1/D) sum_j cos(w_j . (x - x')) with the kernel's own frequencies (float oracle, TESTED formula)
-  converge  : KISS-GP kernel -> base kernel under grid refinement (TESTED only)"""
+  converge  : KISS-GP kernel -> base kernel under grid refinement (TESTED only)
+  reeval    : evaluate (eval mode) / change parameters through the public API / evaluate again, for the SGPR, KISS-GP and RFF
+              models vs run_posterior on the blocks of a fresh model at the new parameters; the gridkernel, kiss and sgpr
+              families carry cases with a `reeval` key that do the same on the kernel alone (eval-mode caches)"""
 import itertools
 import json
 import math
@@ -358,7 +361,23 @@ def gen_gridkernel(rng, tier):
                 bounds.append([lo, lo + dy(rng, 1, 3, 8)])
             cases.append(dict(family="gridkernel", d=d, sizes=sizes, bounds=bounds,
                               kernel=rng.choice(["rbf", "rbf", "matern15", "matern25"]),
-                              ls=[dy(rng, 0.4, 2.0) for _ in range(d)], toeplitz=rng.random() < 0.5))
+                              ls=[dy(rng, 0.4, 2.0) for _ in range(d)], toeplitz=rng.random() < 0.5,
+                              evalmode=rng.random() < 0.5))
+    # evaluate in eval mode (fills the cached Toeplitz / Kronecker matrix), change the lengthscale / load a state dict /
+    # replace the grid, evaluate again
+    for j, how in enumerate(["assign", "state_dict", "update_grid"] * (1 if tier == "quick" else 4)):
+        for d in (1, 2):
+            sizes = [rng.randint(2, 4) for _ in range(d)]
+            bounds, bounds0 = [], []
+            for _ in range(d):
+                lo = dy(rng, -2, 1, 8)
+                bounds.append([lo, lo + dy(rng, 1, 3, 8)])
+                lo = dy(rng, -2, 1, 8)
+                bounds0.append([lo, lo + dy(rng, 1, 3, 8)])
+            cases.append(dict(family="gridkernel", d=d, sizes=sizes, bounds=bounds, bounds0=bounds0,
+                              kernel=rng.choice(["rbf", "matern15", "matern25"]),
+                              ls=[dy(rng, 0.4, 2.0) for _ in range(d)], ls0=[dy(rng, 0.4, 2.0) for _ in range(d)],
+                              toeplitz=rng.random() < 0.5, evalmode=True, reeval=how))
     return cases
 
 
@@ -378,11 +397,34 @@ def check_gridkernel(out, cases, verbose=False):
     impl, terms = [], []
     for c in cases:
         grid = [torch.linspace(b[0], b[1], g, dtype=torch.float64) for g, b in zip(c["sizes"], c["bounds"])]
-        base = base_kernel(c["kernel"], c["d"], c["ls"])
         full = create_data_from_grid(grid)
+        how = c.get("reeval")
         with torch.no_grad(), gs.use_toeplitz(c["toeplitz"]):
-            gk = K.GridKernel(base, grid)
-            dense = gk(full, full).to_dense()
+            if how:
+                grid0 = grid if how != "update_grid" else [torch.linspace(b[0], b[1], g, dtype=torch.float64)
+                                                           for g, b in zip(c["sizes"], c["bounds0"])]
+                base = base_kernel(c["kernel"], c["d"], c["ls0"] if how != "update_grid" else c["ls"])
+                gk = K.GridKernel(base, grid0)
+                gk.eval()
+                full0 = create_data_from_grid(grid0)
+                first = gk(full0, full0).to_dense().clone()
+                if how == "assign":
+                    gk.train()
+                    base.lengthscale = torch.tensor(c["ls"])
+                    gk.eval()
+                elif how == "state_dict":
+                    gk.load_state_dict(K.GridKernel(base_kernel(c["kernel"], c["d"], c["ls"]), grid).state_dict())
+                else:
+                    gk.update_grid(grid)
+                dense = gk(full, full).to_dense()
+                c["_moved"] = float((dense - first).abs().max())
+            else:
+                base = base_kernel(c["kernel"], c["d"], c["ls"])
+                gk = K.GridKernel(base, grid)
+                if c.get("evalmode"):
+                    gk.eval()
+                    gk(full, full).to_dense()       # second call below is served from the eval-mode cache
+                dense = gk(full, full).to_dense()
             direct = base(full, full).to_dense()
         rows = [axis_gram(base, grid, i)[0].tolist() for i in range(c["d"])]
         impl.append((grid, full, dense, direct))
@@ -390,8 +432,13 @@ def check_gridkernel(out, cases, verbose=False):
     res = C.coq_run_cases("C09_gridk", IMPORTS, "Definition run := run_grid_kernel.", terms, shard=4)
     for c, (grid, full, dense, direct), dg, r in zip(cases, impl, digits, res):
         d, G = c["d"], int(np.prod(c["sizes"]))
-        out.case(dict(family="gridkernel", d=d, sizes=c["sizes"], kernel=c["kernel"], toeplitz=c["toeplitz"]),
-                 d >= 2 and len(set(c["sizes"])) > 1, label="gridkernel:d=%d" % d)
+        how = c.get("reeval")
+        rk = (":after-" + how) if how else ""
+        moved = c.pop("_moved", None)
+        out.case(dict(family="gridkernel", d=d, sizes=c["sizes"], kernel=c["kernel"], toeplitz=c["toeplitz"],
+                      evalmode=bool(c.get("evalmode")), reeval=how, ls=c["ls"]),
+                 (d >= 2 and len(set(c["sizes"])) > 1) if not how else moved > 1e-3,
+                 label="gridkernel:d=%d%s" % (d, ":reeval-" + how if how else ""))
         rd = C.Reader(dg)
         bad = None
         for p in range(G):
@@ -410,13 +457,13 @@ def check_gridkernel(out, cases, verbose=False):
             print("GridKernel dense row 0:", dense[0].tolist())
             print("model row 0:           ", [float(v) for v in model[0]])
         if not dd <= 1e-9:
-            out.fail("gridkernel:kron-toeplitz:%s" % ("toeplitz" if c["toeplitz"] else "dense-factors"),
+            out.fail("gridkernel:kron-toeplitz:%s%s" % ("toeplitz" if c["toeplitz"] else "dense-factors", rk),
                      "GridKernel differs from K_{d-1} kron ... kron K_0 of the Toeplitz factors (%.3g)" % dd, c,
                      impl=dense.tolist(), model=[[float(v) for v in row] for row in model])
         if c["kernel"] == "rbf":
             d2 = maxdiff(dense.tolist(), direct.tolist())
             if not d2 <= 1e-9:
-                out.fail("gridkernel:vs-base-kernel", "GridKernel on create_data_from_grid differs from the base kernel "
+                out.fail("gridkernel:vs-base-kernel" + rk, "GridKernel on create_data_from_grid differs from the base kernel "
                          "(%.3g)" % d2, c, impl=dense.tolist(), model=direct.tolist())
 
 
@@ -434,11 +481,24 @@ def gen_kiss(rng, tier):
                               pos1=[[grid_positions(rng, g, 1)[0] for g in sizes] for _ in range(n1)],
                               pos2=[[grid_positions(rng, g, 1)[0] for g in sizes] for _ in range(n2)],
                               same=(j % 4 == 1), toeplitz=rng.random() < 0.6))
+    # evaluate in eval mode, change the base kernel's lengthscale (train() + setter / load_state_dict) or, for a
+    # data-dependent grid, present wider data (the grid is rebuilt), evaluate again
+    for j, how in enumerate(["assign", "state_dict", "regrid"] * (1 if tier == "quick" else 4)):
+        for d in (1, 2):
+            sizes, bounds = gen_grid_spec(rng, d, tier, ragged=True)
+            sizes = [min(g, 8) for g in sizes]
+            n1, n2 = rng.randint(2, 4), rng.randint(1, 3)
+            cases.append(dict(family="kiss", d=d, sizes=sizes, bounds=bounds, dynamic=(how == "regrid"),
+                              kernel=rng.choice(["rbf", "matern25"]), ls=[dy(rng, 0.3, 2.0) for _ in range(d)],
+                              ls0=[dy(rng, 0.3, 2.0) for _ in range(d)],
+                              pos1=[[grid_positions(rng, g, 1)[0] for g in sizes] for _ in range(n1)],
+                              pos2=[[grid_positions(rng, g, 1)[0] for g in sizes] for _ in range(n2)],
+                              same=(j % 2 == 1), toeplitz=rng.random() < 0.6, reeval=how))
     return cases
 
 
-def kiss_build(c):
-    base = base_kernel(c["kernel"], c["d"], c["ls"])
+def kiss_build(c, initial=False):
+    base = base_kernel(c["kernel"], c["d"], c["ls0"] if initial else c["ls"])
     g0 = make_grid(c["sizes"], c["bounds"])
     X1 = torch.tensor(targets_on(g0, c["pos1"]))
     X2 = X1 if c["same"] else torch.tensor(targets_on(g0, c["pos2"]))
@@ -464,10 +524,30 @@ def kuu_product(base, grid):
 def check_kiss(out, cases, verbose=False):
     impl, grids, X1s, X2s = [], [], [], []
     for c in cases:
-        base, kern, X1, X2 = kiss_build(c)
+        how = c.get("reeval")
+        base, kern, X1, X2 = kiss_build(c, initial=how in ("assign", "state_dict"))
         try:
             with torch.no_grad(), gs.use_toeplitz(c["toeplitz"]):
+                if how:
+                    kern.eval()
+                    if how == "regrid":
+                        # first the inputs shrunk towards their centre (the data-dependent grid is fitted to them), then
+                        # the inputs themselves, which lie outside that grid
+                        ctr = torch.cat([X1, X2]).mean(0)
+                        first = kern(ctr + 0.4 * (X1 - ctr), ctr + 0.4 * (X2 - ctr)).to_dense().clone()
+                        c["_grid_first"] = [g.clone() for g in kern.grid]
+                    else:
+                        first = kern(X1, X2).to_dense().clone()
+                        kern(X1).to_dense(), kern(X1, diag=True)
+                        if how == "assign":
+                            kern.train()
+                            base.lengthscale = torch.tensor(c["ls"])
+                            kern.eval()
+                        else:
+                            kern.load_state_dict(kiss_build(c)[1].state_dict())
                 dense = kern(X1, X2).to_dense().numpy()
+                if how:
+                    c["_moved"] = float(np.abs(dense - first.numpy()).max())
             err = None
         except Exception as e:
             dense, err = None, e
@@ -481,12 +561,20 @@ def check_kiss(out, cases, verbose=False):
     for c, (base, grid, dense, err), a, b in zip(cases, impl, m1, m2):
         d, G = c["d"], int(np.prod(c["sizes"]))
         asym = d >= 2 and (len(set(c["sizes"])) > 1 or len(set(c["ls"])) > 1 or len({tuple(x) for x in c["bounds"]}) > 1)
+        how = c.get("reeval")
+        rk = (":after-" + how) if how else ""
+        moved = c.pop("_moved", None)
+        gfirst = c.pop("_grid_first", None)
         out.case(dict(family="kiss", d=d, sizes=c["sizes"], kernel=c["kernel"], ls=c["ls"], dynamic=c["dynamic"],
-                      toeplitz=c["toeplitz"], pos1=c["pos1"]), d == 1 or asym, label="kiss:d=%d" % d)
+                      toeplitz=c["toeplitz"], pos1=c["pos1"], reeval=how),
+                 (d == 1 or asym) if not how else (moved is not None and moved > 1e-3),
+                 label="kiss:d=%d%s" % (d, ":reeval-" + how if how else ""))
+        if how == "regrid" and err is None and all(torch.equal(a_, b_) for a_, b_ in zip(gfirst, grid)):
+            out.fail("kiss-kernel:dynamic-grid-not-rebuilt", "inputs outside the data-dependent grid did not rebuild it", c)
         if asym:
             out.count("kiss:d2-asymmetric(index-order visible)")
         if err is not None:
-            out.fail("kiss-kernel:exception:%s" % type(err).__name__, "GridInterpolationKernel raised %r" % err, c)
+            out.fail("kiss-kernel:exception:%s%s" % (type(err).__name__, rk), "GridInterpolationKernel raised %r" % err, c)
             continue
         KUU = kuu_product(base, grid)
         want = dense_W(a, G, "colmajor") @ KUU @ dense_W(b, G, "colmajor").T
@@ -503,12 +591,12 @@ def check_kiss(out, cases, verbose=False):
         # diagnosis: lexicographic flat indices used on the column-major ordered K_{d-1} kron ... kron K_0
         alt = dense_W(a, G, "lex") @ KUU @ dense_W(b, G, "lex").T
         if maxdiff(dense, alt) <= tol:
-            out.fail("kiss-kernel:index-order:lex-index-into-colmajor-kron",
+            out.fail("kiss-kernel:index-order:lex-index-into-colmajor-kron" + rk,
                      "KISS-GP kernel = W K_UU W^T only if the lexicographic interpolation indices are read in "
                      "GridKernel's column-major Kronecker order (dimensions mixed up; max diff %.3g)" % dd, c,
                      impl=dense.tolist(), model=want.tolist())
         else:
-            out.fail("kiss-kernel:mismatch:d%d" % d, "KISS-GP kernel differs from W K_UU W^T (max diff %.3g)" % dd, c,
+            out.fail("kiss-kernel:mismatch:d%d%s" % (d, rk), "KISS-GP kernel differs from W K_UU W^T (max diff %.3g)" % dd, c,
                      impl=dense.tolist(), model=want.tolist())
 
 
@@ -606,9 +694,12 @@ def strat_data(c):
     return X, y
 
 
-def strat_blocks(c):
-    """dense blocks of the SAME approximate kernel (public kernel calls), mean and noise"""
+def strat_blocks(c, state=None):
+    """dense blocks of the SAME approximate kernel (public kernel calls), mean and noise; state: state_dict of the
+    parameters to evaluate at (loaded into a freshly constructed model that has never been evaluated)"""
     model, lik, base, X, Xs, y = strat_build(c)
+    if state is not None:
+        model.load_state_dict(state)
     Xa, ya = strat_data(c)
     Xa = torch.tensor(Xa)
     model.eval()
@@ -640,6 +731,174 @@ def strat_outputs(c):
                 model = model.get_fantasy_model(torch.tensor([c["Xf"][k]]), torch.tensor([c["yf"][k]]))
         post = model(Xs)
         return post.mean.tolist(), post.covariance_matrix.tolist(), type(model.prediction_strategy).__name__
+
+
+# --------------------------------------------------------------------------- evaluate / mutate / evaluate again
+# Every structured kernel and strategy with an eval-mode cache is evaluated, its parameters are changed through the
+# public API (train() + setters, train() + optimiser steps on the marginal log likelihood, load_state_dict in eval mode)
+# and it is evaluated again; the SECOND result must be the dense meaning at the NEW parameters.
+
+REEVAL_HOWS = ["assign", "optim", "state_dict"]
+
+
+def new_values(rng, d):
+    return dict(ls=[dy(rng, 0.3, 1.5) for _ in range(d)], outputscale=dy(rng, 0.5, 2.5), noise=dy(rng, 0.05, 0.6),
+                const=dy(rng, -1, 1))
+
+
+def stationary_of(kern):
+    """the stationary (or RFF) kernel carrying the lengthscale inside a ScaleKernel / structured wrapper"""
+    k = kern
+    while not hasattr(k, "raw_lengthscale") or k.raw_lengthscale is None:
+        k = k.base_kernel
+    return k
+
+
+def mutate_model(c, model, lik, rng):
+    """change every hyperparameter of the model (kernel lengthscales / outputscale, mean constant, noise, inducing points)
+    the way c["reeval"] says; the model is in eval mode with filled caches on entry and in eval mode on return"""
+    how = c["reeval"]
+    d = c["d"]
+    nv = new_values(rng, d)
+    if how == "state_dict":
+        # parameters of a differently parameterised model of the same architecture, loaded while in eval mode
+        other, olik, _, _, _, _ = strat_build(dict(c, hseed=c["hseed"] + 1))
+        sd = other.state_dict()
+        if c["model"] == "sgpr":
+            sd["covar_module.inducing_points"] = torch.tensor(c["Z2"])
+        model.load_state_dict(sd)
+        return
+    model.train()
+    lik.train()
+    if how == "assign":
+        with torch.no_grad():
+            kern = model.covar_module
+            stationary_of(kern).lengthscale = torch.tensor(nv["ls"])
+            for k in (kern, getattr(kern, "base_kernel", None)):
+                if isinstance(k, K.ScaleKernel):
+                    k.outputscale = nv["outputscale"]
+            if isinstance(model.mean_module, gpytorch.means.ConstantMean):
+                model.mean_module.constant = nv["const"]
+            if not c.get("hetero"):
+                lik.noise = nv["noise"]
+            if c["model"] == "sgpr":
+                kern.inducing_points.copy_(torch.tensor(c["Z2"]))
+    else:
+        mll = gpytorch.mlls.ExactMarginalLogLikelihood(lik, model)
+        opt = torch.optim.Adam(model.parameters(), lr=0.15)
+        X, y = model.train_inputs[0], model.train_targets
+        for _ in range(2):
+            opt.zero_grad()
+            loss = -mll(model(X), y)
+            loss.backward()
+            opt.step()
+    model.eval()
+    lik.eval()
+
+
+def reeval_outputs(c):
+    """(mean, cov, strategy class, state_dict after the mutation, max change of the prediction) of the second evaluation"""
+    model, lik, base, X, Xs, y = strat_build(c)
+    rng = random.Random(c["hseed"] + 77)
+    model.eval()
+    lik.eval()
+    with flags_cm(c["flags"]):
+        with torch.no_grad():
+            first = model(Xs)
+            m0, c0 = first.mean.clone(), first.covariance_matrix.clone()
+            # also the kernel on its own, train / cross / diag (fills the kernel's eval-mode caches on every branch)
+            model.covar_module(X).to_dense()
+            model.covar_module(Xs, X).to_dense()
+            model.covar_module(X, diag=True)
+        mutate_model(c, model, lik, rng)
+        with torch.no_grad():
+            post = model(Xs)
+            mean, cov = post.mean, post.covariance_matrix
+    state = {k: v.detach().clone() for k, v in model.state_dict().items()}
+    moved = max(float((mean - m0).abs().max()), float((cov - c0).abs().max()))
+    return mean.tolist(), cov.tolist(), type(model.prediction_strategy).__name__, state, moved
+
+
+def gen_reeval(rng, tier):
+    cases = []
+    reps = 1 if tier == "quick" else 6
+    nmax = 4 if tier == "quick" else 5
+    for model in ("sgpr", "kiss", "rff"):
+        for how in REEVAL_HOWS:
+            for j in range(reps * (2 if model == "sgpr" else 1)):
+                d = 1 if (model == "kiss" and j % 2 == 0) else 2
+                n, t = rng.randint(2, nmax), rng.randint(1, 2)
+                pts = separated(rng, n + t, d, 0.0, 1.0, sep=0.06)
+                c = dict(family="reeval", model=model, reeval=how, d=d, n=n, t=t, X=pts[:n], Xs=pts[n:], Xf=[],
+                         y=[dy(rng, -2, 2, 8) for _ in range(n)], yf=[], hseed=rng.randint(0, 10 ** 9),
+                         mean=rng.choice(["zero", "constant"]), scale=rng.random() < 0.6, hetero=rng.random() < 0.4)
+                if model == "kiss":
+                    c["sizes"] = [rng.randint(5, 10) for _ in range(d)]
+                if model == "sgpr":
+                    mz = rng.randint(2, 4)
+                    c["Z"] = separated(rng, mz, d, 0.0, 1.0, sep=0.15)
+                    c["Z2"] = separated(rng, mz, d, 0.0, 1.0, sep=0.15)
+                if model == "rff":
+                    c["D"] = rng.randint(2, 6)
+                # default settings + one rotating settings combination of the property
+                fls = [()] + [rng.choice(STRAT_FLAGS[model][1:])]
+                for fl in fls:
+                    cases.append(dict(c, flags=list(fl)))
+    return cases
+
+
+def check_reeval(out, cases, verbose=False):
+    runs = []
+    for c in cases:
+        try:
+            runs.append(reeval_outputs(c))
+        except Exception as e:
+            import traceback
+            runs.append(("exc", e, traceback.format_exc()[-600:]))
+    terms, idx = [], []
+    for i, (c, r) in enumerate(zip(cases, runs)):
+        if r[0] == "exc":
+            continue
+        b = strat_blocks(c, state=r[3])
+        terms.append("(%d%%nat, %d%%nat, %s, %s, %s, %s)" % (len(b[3]), c["t"], C.qc_mat(b[0]), C.qc_vec(b[1]),
+                                                           C.qc_mat(b[2]), C.qc_vec(b[3])))
+        idx.append(i)
+    res = dict(zip(idx, C.coq_run_cases("C09_reeval", IMPORTS, "Definition run := run_posterior.", terms, shard=2)))
+    for i, (c, r) in enumerate(zip(cases, runs)):
+        t = c["t"]
+        path = "+".join(c["flags"]) or "default"
+        desc = dict(family="reeval", model=c["model"], how=c["reeval"], d=c["d"], n=c["n"], t=t, flags=c["flags"],
+                    hseed=c["hseed"], hetero=bool(c.get("hetero")))
+        label = "reeval:%s:%s" % (c["model"], c["reeval"])
+        if r[0] == "exc":
+            out.case(desc, True, label=label)
+            out.fail("reeval:%s:%s:exception:%s:%s" % (c["model"], c["reeval"], type(r[1]).__name__, path),
+                     "evaluate / change parameters (%s) / evaluate again raised %r\n%s" % (c["reeval"], r[1], r[2]), c)
+            continue
+        mean, cov, strat, state, moved = r
+        rd = C.Reader(res[i])
+        if rd.int() != 1:
+            out.case(desc, False, label=label)
+            out.fail("strategy:model-singular", "model could not invert the dense train covariance", c, no_input=False)
+            continue
+        mm, mc = rd.qs(t), rd.qmat(t, t)
+        # non-trivial: the mutation moved the prediction by more than the tolerance (a stale result would be visible)
+        out.case(desc, moved > 1e-3, label=label)
+        out.count("strategy-class=" + strat)
+        a = strat_tol(c)
+        dm, dc = maxdiff(mean, mm), maxdiff(cov, mc)
+        if verbose:
+            print("how", c["reeval"], "flags", c["flags"], "strategy", strat, "prediction moved by", moved)
+            print("impl mean ", mean, "\nmodel mean", [float(v) for v in mm])
+            print("impl cov  ", cov, "\nmodel cov ", [[float(v) for v in r_] for r_ in mc])
+        if not dm <= a:
+            out.fail("reeval:%s:%s:mean:%s" % (c["model"], c["reeval"], path), "after evaluate / change parameters (%s) / "
+                     "evaluate again the predictive mean differs from the dense conditional at the NEW parameters (%.3g)"
+                     % (c["reeval"], dm), c, impl=mean, model=[float(v) for v in mm])
+        if not dc <= a:
+            out.fail("reeval:%s:%s:cov:%s" % (c["model"], c["reeval"], path), "after evaluate / change parameters (%s) / "
+                     "evaluate again the predictive covariance differs from the dense conditional at the NEW parameters "
+                     "(%.3g)" % (c["reeval"], dc), c, impl=cov, model=[[float(v) for v in r_] for r_ in mc])
 
 
 def strat_tol(c):
@@ -710,6 +969,16 @@ def gen_sgpr(rng, tier):
                           mean=rng.choice(["zero", "constant"]), scale=rng.random() < 0.6, model="sgpr",
                           hetero=(j % 2 == 0),
                           flags=["no_sgpr_correction"] + (["cg"] if j % 4 == 3 else [])))
+    # the same three comparisons on ONE object that was evaluated in eval mode, changed (see mutate_model) and is then
+    # taken through train mode (Nystrom matrix, bound) and eval mode (corrected kernel, predictions) again
+    for j, how in enumerate(REEVAL_HOWS * (1 if tier == "quick" else 4)):
+        d = rng.randint(1, 2)
+        n, t, mz = rng.randint(2, 3), rng.randint(1, 2), rng.randint(2, 3)
+        pts = separated(rng, n + t, d, 0.0, 1.0, sep=0.06)
+        cases.append(dict(family="sgpr", d=d, n=n, t=t, X=pts[:n], Xs=pts[n:], y=[dy(rng, -2, 2, 8) for _ in range(n)],
+                          Z=separated(rng, mz, d, 0.0, 1.0, sep=0.2), Z2=separated(rng, mz, d, 0.0, 1.0, sep=0.2),
+                          hseed=rng.randint(0, 10 ** 9), mean=rng.choice(["zero", "constant"]), scale=rng.random() < 0.6,
+                          model="sgpr", hetero=(j % 2 == 1), flags=["no_sgpr_correction"], reeval=how))
     return cases
 
 
@@ -718,8 +987,16 @@ def check_sgpr(out, cases, verbose=False):
     Qcorr_all, Qdiag_all, Kxd_all = {}, {}, {}
     for c in cases:
         model, lik, base, X, Xs, y = strat_build(c)
-        Z = torch.tensor(c["Z"])
         kern = model.covar_module
+        if c.get("reeval"):
+            model.eval()
+            lik.eval()
+            with torch.no_grad():
+                model(Xs).covariance_matrix
+                kern(X).to_dense(), kern(Xs, X).to_dense(), kern(X, diag=True)
+            mutate_model(c, model, lik, random.Random(c["hseed"] + 77))
+            base = kern.base_kernel
+        Z = kern.inducing_points.detach().clone()
         # training mode: kernel = Nystrom matrix, objective = collapsed bound
         model.train()
         lik.train()
@@ -735,9 +1012,17 @@ def check_sgpr(out, cases, verbose=False):
             noise = noise * c["n"] if len(noise) == 1 else noise
             r = (y - model.mean_module(X)).tolist()
             ms = model.mean_module(Xs).tolist()
-        mean, cov, _ = strat_outputs(c)
+        if c.get("reeval"):
+            model.eval()
+            lik.eval()
+            with torch.no_grad(), flags_cm(c["flags"]):
+                post = model(Xs)
+                mean, cov = post.mean.tolist(), post.covariance_matrix.tolist()
+            m2, X2 = model, X
+        else:
+            mean, cov, _ = strat_outputs(c)
+            m2, _, _, X2, _, _ = strat_build(c)
         impl.append((Qtrain, obj, mean, cov, noise))
-        m2, _, _, X2, _, _ = strat_build(c)
         m2.eval()
         with torch.no_grad():
             Qcorr_all[id(c)] = m2.covar_module(X2).to_dense().tolist()
@@ -750,8 +1035,9 @@ def check_sgpr(out, cases, verbose=False):
     for c, (Qtrain, obj, mean, cov, noise), r in zip(cases, impl, res):
         n, t = c["n"], c["t"]
         out.case(dict(family="sgpr", d=c["d"], n=n, t=t, m=len(c["Z"]), flags=c["flags"], hseed=c["hseed"],
-                      hetero=bool(c.get("hetero"))), n >= 2,
-                 label="sgpr:nystrom+textbook+bound:%s" % ("fixed-noise" if c.get("hetero") else "homoskedastic"))
+                      hetero=bool(c.get("hetero")), reeval=c.get("reeval")), n >= 2,
+                 label="sgpr:nystrom+textbook+bound:%s%s" % ("fixed-noise" if c.get("hetero") else "homoskedastic",
+                                                             ":reeval-" + c["reeval"] if c.get("reeval") else ""))
         rd = C.Reader(r)
         if rd.int() != 1:
             out.fail("sgpr:model-singular", "model could not invert K_zz / Q + s2 I", c, no_input=False)
@@ -759,34 +1045,35 @@ def check_sgpr(out, cases, verbose=False):
         Q, tm, tc = rd.qmat(n, n), rd.qs(t), rd.qmat(t, t)
         quad, det, added = rd.q(), rd.q(), rd.q()
         a = TOL_ITER if "cg" in c["flags"] else TOL_DENSE
+        rk = (":after-" + c["reeval"]) if c.get("reeval") else ""
         if verbose:
             print("impl Nystrom", Qtrain, "\nmodel      ", [[float(v) for v in row] for row in Q])
             print("impl mean", mean, "textbook", [float(v) for v in tm])
             print("impl cov ", cov, "textbook", [[float(v) for v in row] for row in tc])
         if not maxdiff(Qtrain, Q) <= TOL_DENSE:
-            out.fail("sgpr:nystrom", "InducingPointKernel (training mode) differs from K_xz K_zz^-1 K_zx", c, impl=Qtrain,
+            out.fail("sgpr:nystrom" + rk, "InducingPointKernel (training mode) differs from K_xz K_zz^-1 K_zx", c, impl=Qtrain,
                      model=[[float(v) for v in row] for row in Q])
         # eval mode with sgpr_diagonal_correction on (the default): the represented train matrix is
         # Q + diag(max(K_ii - Q_ii, 0)); cross blocks carry no correction
         Qf = np.array([[float(v) for v in row] for row in Q])
         corr = np.maximum(np.array(Kxd_all[id(c)]) - np.diag(Qf), 0.0)
         if not maxdiff(Qcorr_all[id(c)], (Qf + np.diag(corr)).tolist()) <= TOL_DENSE:
-            out.fail("sgpr:diagonal-correction", "InducingPointKernel (eval mode, sgpr_diagonal_correction on) differs from "
+            out.fail("sgpr:diagonal-correction" + rk, "InducingPointKernel (eval mode, sgpr_diagonal_correction on) differs from "
                      "Q + diag(K - Q)", c, impl=Qcorr_all[id(c)], model=(Qf + np.diag(corr)).tolist())
         if not maxdiff(Qdiag_all[id(c)], (np.diag(Qf) + corr).tolist()) <= TOL_DENSE:
-            out.fail("sgpr:diagonal-correction:diag", "InducingPointKernel(diag=True) (eval mode, correction on) differs "
+            out.fail("sgpr:diagonal-correction:diag" + rk, "InducingPointKernel(diag=True) (eval mode, correction on) differs "
                      "from diag(Q) + diag(K - Q)", c, impl=Qdiag_all[id(c)], model=(np.diag(Qf) + corr).tolist())
         if not maxdiff(mean, tm) <= a:
-            out.fail("sgpr:textbook-mean", "SGPR predictive mean differs from the textbook equation", c, impl=mean,
+            out.fail("sgpr:textbook-mean" + rk, "SGPR predictive mean differs from the textbook equation", c, impl=mean,
                      model=[float(v) for v in tm])
         if not maxdiff(cov, tc) <= a:
-            out.fail("sgpr:textbook-cov", "SGPR predictive covariance differs from the textbook equation", c, impl=cov,
+            out.fail("sgpr:textbook-cov" + rk, "SGPR predictive covariance differs from the textbook equation", c, impl=cov,
                      model=[[float(v) for v in row] for row in tc])
         bound = (-0.5 * float(quad) - 0.5 * math.log(float(det)) - 0.5 * n * math.log(2 * math.pi) + float(added)) / n
         if verbose:
             print("impl objective", obj, "collapsed bound / n", bound)
         if not abs(obj - bound) <= a * (1 + abs(bound)):
-            out.fail("sgpr:titsias-bound", "ExactMarginalLogLikelihood of the SGPR model differs from the collapsed bound "
+            out.fail("sgpr:titsias-bound" + rk, "ExactMarginalLogLikelihood of the SGPR model differs from the collapsed bound "
                      "(log N(y; m, Q + D) - 1/2 sum_i (K_ii - Q_ii)/D_ii)/n", c, impl=obj, model=bound)
 
 
@@ -875,7 +1162,8 @@ def check_converge(out, cases, verbose=False):
 FAMILIES = {
     "multitask": (gen_multitask, check_multitask), "interp": (gen_interp, check_interp),
     "gridkernel": (gen_gridkernel, check_gridkernel), "kiss": (gen_kiss, check_kiss),
-    "strategy": (gen_strategy, check_strategy), "sgpr": (gen_sgpr, check_sgpr), "rff": (gen_rff, check_rff),
+    "strategy": (gen_strategy, check_strategy), "reeval": (gen_reeval, check_reeval),
+    "sgpr": (gen_sgpr, check_sgpr), "rff": (gen_rff, check_rff),
     "converge": (gen_converge, check_converge),
 }
 
@@ -889,8 +1177,13 @@ def run(out, ctx):
                 "index-order errors are visible), fixed and data-dependent grids; strategies {KISS-GP, WISKI fantasy "
                 "depth 1..2, SGPR (inducing 2..5), RFF (features 2..6)} x settings {Cholesky/CG, fast_pred_var, "
                 "fast_pred_samples, sgpr_diagonal_correction, use_toeplitz}; SGPR kernel with the diagonal correction vs "
-                "Q + diag(K - Q); RFF kernel (features 1..6, d 1..3, n straddling 2D) on every branch; non-trivial = tasks>=2 / n>=2 / "
-                "asymmetric grid")
+                "Q + diag(K - Q); RFF kernel (features 1..6, d 1..3, n straddling 2D) on every branch; re-evaluation: every object "
+                "with an eval-mode cache (InducingPointKernel, GridKernel, GridInterpolationKernel incl. the data-dependent grid, "
+                "SGPR / KISS-GP / RFF prediction strategies) is evaluated in eval mode, changed through the public API (train() + "
+                "setters of lengthscale / outputscale / noise / mean / inducing points, train() + 2 Adam steps on the marginal "
+                "log likelihood, load_state_dict in eval mode, update_grid / wider data) and evaluated again: the second result "
+                "vs the dense meaning at the new parameters (Coq model on blocks of a freshly constructed object carrying the "
+                "new state); non-trivial = tasks>=2 / n>=2 / asymmetric grid / (re-evaluation) the change moved the result by > 1e-3")
     out.extra["tolerances"] = {"explicit formulas": 1e-9, "dense/cholesky": TOL_DENSE,
                                "cg / lanczos / fast_pred_samples root / WISKI (jittered Cholesky of a rank-deficient "
                                "cache) / KISS-GP kernel with use_toeplitz on (float32-created grid buffers)": TOL_ITER}
